@@ -37,13 +37,13 @@ type R struct {
 	Tier     string
 	Seed     int
 	Obls     []Obligation
-	Notes    []string          // what was analysed (functions, sites, sets)
-	Stats    map[string]int    // named counters
-	Explain  string            // clauses decided / not decided
-	Trusted  []string          // trusted base
-	Assume   []string          // assumptions
-	Floor    int               // minimum obligations confirmed by hand
-	Extra    map[string]any    // additional coverage keys
+	Notes    []string       // what was analysed (functions, sites, sets)
+	Stats    map[string]int // named counters
+	Explain  string         // clauses decided / not decided
+	Trusted  []string       // trusted base
+	Assume   []string       // assumptions
+	Floor    int            // minimum obligations confirmed by hand
+	Extra    map[string]any // additional coverage keys
 	start    time.Time
 	keys     map[string]int
 	Selftest []SelftestResult
